@@ -95,12 +95,13 @@ type Job struct {
 }
 
 type Finding struct {
-	Property  string `json:"property"`
-	Status    string `json:"status"` // open | fixed
-	Signature string `json:"signature"`
-	WhatFails string `json:"what_fails"`
-	Commit    string `json:"commit,omitempty"`
-	Avoid     string `json:"avoid,omitempty"` // generator switch that avoids the trigger
+	Property  string   `json:"property"`
+	Status    string   `json:"status"`    // open | fixed
+	Signature string   `json:"signature"` // prefix of the violation signature (exact list below, if given, decides)
+	Exact     []string `json:"signatures,omitempty"`
+	WhatFails string   `json:"what_fails"`
+	Commit    string   `json:"commit,omitempty"`
+	Avoid     string   `json:"avoid,omitempty"` // generator switch that avoids the trigger
 }
 
 // per-property tiers
@@ -369,7 +370,6 @@ func attachRaces(res *jobResult) {
 }
 
 var adaptorRe = regexp.MustCompile(`interceptor\.(RTP|RTCP)(Writer|Reader)Func\.`)
-var frameRe = regexp.MustCompile(`^\s+(github\.com/pion/interceptor\S*)\(`)
 
 // raceSig builds "race:<funcA>|<funcB>" from the innermost pion/interceptor
 // frames of the two accesses; ok=false when no library frame is involved.
@@ -402,17 +402,7 @@ func raceSig(block []string) (string, bool) {
 	}
 	var fs []string
 	for _, st := range stacks {
-		f := ""
-		for _, l := range st {
-			if m := frameRe.FindStringSubmatch(l); m != nil {
-				if adaptorRe.MatchString(m[1]) {
-					continue // RTPWriterFunc.Write etc. merely wrap a (harness) function
-				}
-				f = strings.TrimPrefix(m[1], "github.com/pion/interceptor/")
-				break
-			}
-		}
-		fs = append(fs, f)
+		fs = append(fs, libFrame(st))
 	}
 	if len(fs) < 2 || (fs[0] == "" && fs[1] == "") {
 		return "", false
@@ -430,6 +420,47 @@ func raceSig(block []string) (string, bool) {
 	return "race:" + a + "|" + bb, true
 }
 
+var fnLineRe = regexp.MustCompile(`^\s+(\S+)\(`)
+
+// libFrame returns the innermost frame of a stack that executes a file of the
+// repository (the library), named like the function "pkg/x.(*T).M"; "" if there
+// is none.  Frames are recognised by their source file, not by the function
+// name: a closure of the library that was inlined into harness code is
+// printed under the harness function's name.
+func libFrame(st []string) string {
+	for i := 0; i+1 < len(st); i++ {
+		m := fnLineRe.FindStringSubmatch(st[i])
+		if m == nil {
+			continue
+		}
+		file := strings.TrimSpace(st[i+1])
+		if !strings.HasPrefix(file, repoDir+"/") {
+			continue
+		}
+		fn := m[1]
+		if adaptorRe.MatchString(fn) {
+			continue // RTPWriterFunc.Write etc. merely wrap a (harness) function
+		}
+		if strings.HasPrefix(fn, "github.com/pion/interceptor") {
+			return strings.TrimPrefix(strings.TrimPrefix(fn, "github.com/pion/interceptor"), "/")
+		}
+		// inlined: rebuild "<package dir>.<receiver and method>" from the file and the tail of the name
+		rel := strings.TrimPrefix(file, repoDir+"/")
+		if k := strings.Index(rel, ":"); k >= 0 {
+			rel = rel[:k]
+		}
+		dir := filepath.Dir(rel)
+		tail := fn
+		if k := strings.Index(fn, "(*"); k >= 0 {
+			tail = fn[k:]
+		} else if k := strings.LastIndex(fn, "."); k >= 0 {
+			tail = fn[k+1:]
+		}
+		return dir + "." + tail
+	}
+	return ""
+}
+
 func loadFindings() []Finding {
 	raw, err := os.ReadFile(filepath.Join(verifDir, "known_findings.json"))
 	if err != nil {
@@ -445,8 +476,16 @@ func loadFindings() []Finding {
 func matchFinding(fs []Finding, prop, sig string) *Finding {
 	for i := range fs {
 		f := &fs[i]
-		if f.Property == prop && f.Status == "open" && f.Signature != "" && strings.HasPrefix(sig, f.Signature) {
+		if f.Property != prop || f.Status != "open" || f.Signature == "" || !strings.HasPrefix(sig, f.Signature) {
+			continue
+		}
+		if len(f.Exact) == 0 {
 			return f
+		}
+		for _, x := range f.Exact {
+			if x == sig {
+				return f
+			}
 		}
 	}
 	return nil
@@ -736,10 +775,7 @@ func cmdRun(args []string) int {
 				from := c.from
 				for from < c.to {
 					// a share of the runs confirms known findings, the rest avoids their triggers
-					var av []string
-					if len(avoid) > 0 && (from/int64(t.Chunk))%10 != 0 {
-						av = avoid
-					}
+					av := avoidFor(avoid, from, t.Chunk)
 					job := &Job{Prop: prop, Tier: *tier, SeedFrom: from, SeedTo: c.to, Avoid: av}
 					r := b.runJob(job, time.Duration(int(c.to-from)*t.PerRun/4+t.PerRun+30)*time.Second)
 					mu.Lock()
@@ -926,6 +962,9 @@ func cmdRun(args []string) int {
 }
 
 func avoidFor(avoid []string, seed int64, chunk int) []string {
+	if os.Getenv("VERIF_NO_AVOID") != "" {
+		return nil // exploration aid: every run may trigger the open findings
+	}
 	if len(avoid) > 0 && (seed/int64(chunk))%10 != 0 {
 		return avoid
 	}
